@@ -242,6 +242,7 @@ func judgeHeaders(v headerViews, still, wellFormed, packageWritten bool, expW, e
 
 func checkC16(args []string) {
 	run := vx.NewRun("C16", "model_checking", args)
+	activeRun = run
 	run.Rule = "hand-assembled containers: every (base layout, irregularity set) state of spec/RiffGen.tla up to MAXIRR, bound to real bitstreams; plus package-written files (Encode option grid, animation encoder, muxer); distinct = distinct (base, irregularities) states / distinct package-written configurations whose views were compared"
 	run.Assumptions = []string{"well-formed = headers mutually consistent (still canvas = image size, frames inside the canvas), as in the property's quantifier", "Features.LoopCount is compared for animated files only"}
 	toks := buildRiffTokens(run.Seed)
